@@ -193,11 +193,33 @@ Definition decode_ce (orc : oracle) (data ce : bytes) (m : Z) : dres :=
   | _ => decode_loop orc m (rev (split_on COMMA ce)) data
   end.
 
+(* ---- isMaxBytesExempt: which paths escape the advertised max_request_bytes ------------------- *)
+(* for base in {prefix + "/health", "/health"}: path == base || HasPrefix(path, base + "/") *)
+Definition SLASH : N := 47%N.
+Definition health_route : bytes := str "/health".
+Definition path_under (base path : bytes) : bool := beqb path base || has_prefix (base ++ [SLASH]) path.
+Definition is_exempt (pfx path : bytes) : bool :=
+  path_under (pfx ++ health_route) path || path_under health_route path.
+Definition with_exempt (ex : bool) (rq : request) : request :=
+  {| r_exempt := ex; r_cl := r_cl rq; r_raw := r_raw rq; r_rderr := r_rderr rq; r_ce := r_ce rq |}.
+
 (* ---- inputs and observables ----------------------------------------------------------- *)
 Inductive input :=
 | Direct (ops : list setter) (rq : request) (t : table)   (* readHTTPBody + writeBodyReadError *)
 | Http (ops : list setter) (rq : request) (t : table)     (* the same through ServeHTTP and a route *)
-| Stack (data ce : bytes) (m : Z) (t : table).            (* DecodeContentEncoding *)
+| Stack (data ce : bytes) (m : Z) (t : table)             (* DecodeContentEncoding *)
+(* Direct / Http with the exemption COMPUTED from the server's route prefix (SetPrefix) and
+   the request path; the r_exempt field of rq is ignored *)
+| DirectAt (pfx path : bytes) (ops : list setter) (rq : request) (t : table)
+| HttpAt (pfx path : bytes) (ops : list setter) (rq : request) (t : table).
+
+(* an At input becomes a plain one once the exemption is decided by [ex] *)
+Definition resolve (ex : bytes -> bytes -> bool) (i : input) : input :=
+  match i with
+  | DirectAt pfx path ops rq t => Direct ops (with_exempt (ex pfx path) rq) t
+  | HttpAt pfx path ops rq t => Http ops (with_exempt (ex pfx path) rq) t
+  | i' => i'
+  end.
 
 Inductive obs :=
 | OBody (status : Z) (body : bytes) (nread : Z)
@@ -207,7 +229,7 @@ Inductive obs :=
 
 Definition names_of (e : berr) : option Z := match e with EReqTooLarge n => Some n | _ => None end.
 
-Definition model (i : input) : obs :=
+Definition model_core (i : input) : obs :=
   match i with
   | Direct ops rq t =>
       match read_body (tbl_oracle t) (configure ops) rq with
@@ -222,7 +244,9 @@ Definition model (i : input) : obs :=
            | (DErr e, n) => OHttpRefused (status_of e) (names_of e) false n
            end
   | Stack data ce m t => OStack (decode_ce (tbl_oracle t) data ce m)
+  | _ => OStack (DOk [])   (* unreachable after resolve *)
   end.
+Definition model (i : input) : obs := model_core (resolve is_exempt i).
 
 (* ---- decidable equality of observables -------------------------------------------------- *)
 Definition berr_eqb (a b : berr) : bool :=
@@ -376,12 +400,22 @@ Definition spec_stack (orc : oracle) (data ce : bytes) (m : Z) (r : dres) : bool
       end
   end.
 
-Definition spec_ok (i : input) (o : obs) : bool :=
+(* SPEC of the exemption, written differently from the code: the path starts with the health
+   route and either ends there or goes on with a slash right after it *)
+Definition s_under (base path : bytes) : bool :=
+  has_prefix base path &&
+  match skipn (length base) path with [] => true | ch :: _ => N.eqb ch SLASH end.
+Definition s_exempt (pfx path : bytes) : bool :=
+  s_under (pfx ++ health_route) path || s_under health_route path.
+
+Definition spec_core (i : input) (o : obs) : bool :=
   match i with
   | Direct ops rq t => spec_request false (tbl_oracle t) (configure ops) rq o
   | Http ops rq t => spec_request true (tbl_oracle t) (configure ops) rq o
   | Stack data ce m t => match o with OStack r => spec_stack (tbl_oracle t) data ce m r | _ => false end
+  | _ => true
   end.
+Definition spec_ok (i : input) (o : obs) : bool := spec_core (resolve s_exempt i) o.
 
 (* the only guard left: byte strings are shorter than MaxInt64 bytes (a Go slice of that
    length cannot exist); under a cap of exactly MaxInt64 the code has no byte past the cap
@@ -390,7 +424,7 @@ Definition short (b : bytes) : bool := zlen b <? max64.
 Definition fits_tbl (t : table) : bool := forallb (fun e => short (total (snd e))) t.
 Definition fits (i : input) : bool :=
   match i with
-  | Direct _ rq t | Http _ rq t => short (r_raw rq) && fits_tbl t
+  | Direct _ rq t | Http _ rq t | DirectAt _ _ _ rq t | HttpAt _ _ _ rq t => short (r_raw rq) && fits_tbl t
   | Stack _ _ _ t => fits_tbl t
   end.
 
@@ -486,4 +520,5 @@ Definition model_wrap (i : input) : obs :=
               | [] => DOk data
               | _ => decode_loop_wrap (tbl_oracle t) m (rev (split_on COMMA ce)) data
               end)
+  | i' => model i'
   end.
